@@ -6,6 +6,7 @@ from gcv import gcmodel, interp
 from gcv.gcmodel import obj, some, none, OPT
 from gcv.interp import TOP, UNIT, adt, ref
 
+THOROUGH = False
 COL = ["W", "WW", "G", "B"]
 PH = ["Sleep", "Mark", "Sweep"]
 
@@ -100,8 +101,12 @@ class Tables:
         st.mem[("root",)] = ("sym", "rootval")
         init = self.m.snapshot(st)
         try:
-            outs = [Out(self.m, o) for o in self.m.run(name, args, st)]
+            raw = self.m.run(name, args, st)
+            # 'loop' outcomes are paths cut where they re-enter an already explored state (their continuation is
+            # covered by the path that first reached it): not terminal outcomes
+            outs = [Out(self.m, o) for o in raw if o.kind != "loop"]
             r = Row(prim, pre, outs)
+            r.loops = sum(1 for o in raw if o.kind == "loop")
             r.init = init
             return r
         except (interp.Unmodelled, interp.InterpError, KeyError, IndexError, TypeError) as e:
@@ -248,7 +253,7 @@ class Tables:
     # ------------------------------------------------------------------ collector steps
     def t_mark_one(self):
         rootref = ref(("root",), ())
-        for g, ga, flag in itertools.product((0, 1, 2), (0, 1), (0, 1)):
+        for g, ga, flag in itertools.product((0, 1, 2, 3) if THOROUGH else (0, 1, 2), (0, 1), (0, 1)):
             for nt, live in itertools.product((0, 1), (1,)):
                 pre = {"gray": g, "gray_again": ga, "flag": flag, "nt": nt}
                 gray = tuple(range(1, g + 1))
@@ -297,6 +302,9 @@ class Tables:
             nodes = [(c, live) for c in COL for live in (0, 1)]
             shapes += [(n,) for n in nodes]
             shapes += [(a, b) for a in nodes for b in [("W", 1), ("WW", 0), ("B", 1)]]
+            if THOROUGH:
+                small = [("W", 1), ("WW", 1), ("WW", 0), ("B", 1), ("W", 0)]
+                shapes += [(a, b, c) for a in small for b in small for c in small]
             for sh in shapes:
                 objs = {}
                 for i, (c, live) in enumerate(sh):
@@ -386,8 +394,10 @@ class Tables:
             st.mem[a] = v
         init = self.m.snapshot(st)
         try:
-            outs = [Out(self.m, o) for o in self.m.ip.run(key, args, st)]
+            raw = self.m.ip.run(key, args, st)
+            outs = [Out(self.m, o) for o in raw if o.kind != "loop"]
             r = Row(prim, pre, outs)
+            r.loops = sum(1 for o in raw if o.kind == "loop")
         except (interp.Unmodelled, interp.InterpError, KeyError, IndexError, TypeError) as e:
             r = Row(prim, pre, [], err="%s: %s" % (type(e).__name__, e))
             self.errors.append(r)
